@@ -147,7 +147,10 @@ def gen_grouping(rng, n, kinds=('unique', 'groups', 'allsame'), allow_allsame=Tr
     elif typ == 'float':
         # fractional labels; sometimes onset-like values that are close to each other relative to their magnitude
         labs = [1.7e9 + 2.5 * x for x in labs] if rng.chance(0.35) else [x + 0.5 for x in labs]
-    return {'values': labs, 'container': cont, 'kind': kind, 'type': typ}
+    out = {'values': labs, 'container': cont, 'kind': kind, 'type': typ}
+    if typ == 'int' and cont == 'array' and all(isinstance(x, int) and 0 <= x < 200 for x in labs) and rng.chance(0.3):
+        out['adtype'] = rng.pick(['uint8', 'uint16', 'int8', 'int32'])      # narrow / unsigned integer label arrays
+    return out
 
 
 def gen_rdms_spec(rng, n_rdm=(1, 6), n_cond=(3, 9), nan_prob=0.25, groupings=True,
@@ -191,7 +194,9 @@ def gen_rdms_spec(rng, n_rdm=(1, 6), n_cond=(3, 9), nan_prob=0.25, groupings=Tru
 
 def _container(d):
     v = d['values']
-    return np.array(v) if d.get('container') == 'array' else list(v)
+    if d.get('container') == 'array':
+        return np.array(v, dtype=d['adtype']) if d.get('adtype') else np.array(v)
+    return list(v)
 
 
 def build_rdms(spec, value_fn=None, all_rdm_nan=False):
